@@ -173,6 +173,25 @@ func runEngineI(p *Prog, o *obls) {
 				p1 = append(p1, fmt.Sprintf("the extension written at %s uses a second, plain read of the counter instead of the fetch-and-add result", p.instrPos(se)))
 			}
 		}
+		// one counter for the whole transport: the address handed to the fetch-and-add is a field of the interceptor
+		// itself — not an element of a table selected by something of the stream (its extension ID, its SSRC), and not a
+		// field of a per-stream object: two streams of one connection would each start from zero
+		for _, a := range allocs {
+			at := atomicOf[a]
+			if len(at.Call.Args) == 0 {
+				continue
+			}
+			addr := at.Call.Args[0]
+			if fv, isFV := addr.(*ssa.FreeVar); isFV {
+				addr = resolveFreeVar(fv)
+			}
+			switch x := p.origin(addr).(type) {
+			case *ssa.FieldAddr:
+				_ = x
+			case *ssa.IndexAddr:
+				p1 = append(p1, fmt.Sprintf("the counter advanced at %s is an element of a table (%s), selected per stream: streams of one transport draw from different counters and hand out the same numbers", p.instrPos(at), shortExpr(p, x.X)))
+			}
+		}
 		// the counter only ever moves forward by one: nothing else in the repository stores to it (a reset on Unbind or
 		// Close makes the numbers of a stream that is still sending repeat)
 		counters := map[string]bool{}
@@ -769,6 +788,7 @@ func runEngineL(p *Prog, o *obls) {
 			o.undecided("L1", gs.typ, "-", "anchor unresolved: no gated method found")
 		}
 		l2StartsAtFirst(p, o, gs)
+		l1PlaybackStart(p, o, gs)
 		// wherever the pop bookkeeping ended up (a shared helper taking a closure, a helper taking the error): no method of
 		// the buffer's type modifies the queue on a branch on which an error is known non-nil
 		queueKey := gs.typ + "." + gs.queueField
@@ -2067,5 +2087,98 @@ func l2StartsAtFirst(p *Prog, o *obls, gs gateSpec) {
 		} else {
 			o.ok("L2", key, p.Pos(fn.Pos()), fmt.Sprintf("%d store(s) of a pushed packet's number to the playout head, each only while the queue is empty", n))
 		}
+	}
+}
+
+// l1PlaybackStart (rule L1, where playback starts): popping is refused until the minimum packet count is reached. The
+// state the gated methods test for ("playing": the constant the state field is compared with where they refuse) is
+// entered only where the queue's length has been compared with a configured field of the buffer and found to have
+// reached it: every store of that constant to the state field is dominated by such a comparison. An extra way into
+// the playing state (the queue is past its overflow mark, a timer fired) lets Pop succeed before the minimum count.
+func l1PlaybackStart(p *Prog, o *obls, gs gateSpec) {
+	stateKey, queueKey := gs.typ+"."+gs.stateField, gs.typ+"."+gs.queueField
+	// the playing constant: what gated methods compare the state with
+	var playing *ssa.Const
+	for _, fn := range p.Funcs {
+		if fn.Blocks == nil || fn.Signature.Recv() == nil || typeKey(deref(fn.Signature.Recv().Type())) != gs.typ || !strings.HasPrefix(fn.Name(), gs.prefix) {
+			continue
+		}
+		instrsOf(fn, func(in ssa.Instruction) {
+			bo, ok := in.(*ssa.BinOp)
+			if !ok || bo.Op != token.EQL && bo.Op != token.NEQ {
+				return
+			}
+			for _, pair := range [][2]ssa.Value{{bo.X, bo.Y}, {bo.Y, bo.X}} {
+				if c, isC := pair[1].(*ssa.Const); isC && loadOfField(p, pair[0], stateKey) {
+					playing = c
+				}
+			}
+		})
+	}
+	if playing == nil || playing.Value == nil {
+		return
+	}
+	n := 0
+	var bad []string
+	var where string
+	for _, fn := range p.Funcs {
+		if fn.Blocks == nil || !p.InUniverse(fn) {
+			continue
+		}
+		instrsOf(fn, func(in ssa.Instruction) {
+			st, ok := in.(*ssa.Store)
+			if !ok {
+				return
+			}
+			fa, ok := st.Addr.(*ssa.FieldAddr)
+			if !ok || fieldKeyAddr(fa) != stateKey {
+				return
+			}
+			c, isC := st.Val.(*ssa.Const)
+			if !isC || c.Value == nil || c.Value.ExactString() != playing.Value.ExactString() {
+				return
+			}
+			n++
+			where = p.instrPos(st)
+			reached := false
+			for _, f := range dominatingFactsInstr(st) {
+				bo, ok := normFact(f).cond.(*ssa.BinOp)
+				if !ok {
+					continue
+				}
+				var lenSide, cfgSide ssa.Value
+				ge := false
+				switch {
+				case (bo.Op == token.GEQ || bo.Op == token.GTR) && f.truth, (bo.Op == token.LSS || bo.Op == token.LEQ) && !f.truth:
+					lenSide, cfgSide, ge = bo.X, bo.Y, true
+				case (bo.Op == token.LEQ || bo.Op == token.LSS) && f.truth, (bo.Op == token.GTR || bo.Op == token.GEQ) && !f.truth:
+					lenSide, cfgSide, ge = bo.Y, bo.X, true
+				}
+				if !ge {
+					continue
+				}
+				call, isCall := p.origin(lenSide).(*ssa.Call)
+				if !isCall || len(call.Call.Args) == 0 || !loadOfField(p, call.Call.Args[0], queueKey) {
+					continue
+				}
+				if u, isU := p.origin(cfgSide).(*ssa.UnOp); isU && u.Op == token.MUL {
+					if cfa, isF := u.X.(*ssa.FieldAddr); isF && strings.HasPrefix(fieldKeyAddr(cfa), gs.typ+".") {
+						reached = true
+					}
+				}
+			}
+			if !reached {
+				bad = append(bad, fmt.Sprintf("the playing state is entered at %s on a path on which the queue's length has not been found to have reached a configured count", p.instrPos(st)))
+			}
+		})
+	}
+	if n == 0 {
+		return
+	}
+	key := gs.typ + ":playback-start"
+	if len(bad) > 0 {
+		o.bad("L1", key, where, strings.Join(dedupe(bad), "; ")+": a pop then succeeds before the minimum packet count is buffered")
+	} else {
+		o.ok("L1", key, where, fmt.Sprintf("%d store(s) of the playing state, each behind a comparison of the queue's length with a configured count", n))
 	}
 }
